@@ -501,7 +501,7 @@ fn gen_case(rng: &mut Rng, index: usize, thorough: bool) -> Case {
     let profile = rng.below(5);
     let same_ts = rng.chance(3, 4);
     let plant_pct = *rng.pick(&[5u64, 10, 20, 35, 60, 100]);
-    let multi = rng.chance(1, 4);
+    let multi = rng.chance(1, 3);
     let mut docs: Vec<DocSpec> = (0..n).map(|_| {
         let len = match profile {
             0 => rng.usize(5, 20),
@@ -516,11 +516,17 @@ fn gen_case(rng: &mut Rng, index: usize, thorough: bool) -> Case {
             vocab_word(base, k as u32)
         }).collect();
         if rng.below(100) < plant_pct {
-            let times = if multi && rng.chance(1, 2) { rng.usize(2, 4) } else { 1 };
+            let times = if multi && rng.chance(2, 3) { rng.usize(2, 4) } else { 1 };
             for _ in 0..times { let p = rng.usize(0, words.len() - 1); words[p] = PLANT; }
         }
         DocSpec { words, binary: false, ts: if same_ts { TS } else { TS + rng.i64(-400, 400) * 3600 } }
     }).collect();
+    // a corpus without any planted document is a trivial case: allow it only rarely
+    if !docs.iter().any(|d| d.words.contains(&PLANT)) && rng.chance(9, 10) {
+        let i = rng.usize(0, docs.len() - 1);
+        let p = rng.usize(0, docs[i].words.len() - 1);
+        docs[i].words[p] = PLANT;
+    }
     if rng.chance(1, 8) {
         let p = rng.usize(0, docs.len() - 1);
         docs.insert(p, DocSpec { words: vec![], binary: true, ts: TS });
@@ -570,6 +576,8 @@ fn fixed_corpus() -> Vec<Case> {
     // one-letter query word: the sketch tokenizer drops it, the query filter is all zero, no entry overlaps, no candidate:
     // the stage is skipped
     out.push(Case { qword: "x".into(), docs: vec![d(vec![1, 2, PLANT, 9]), d(vec![3, 4, 5])], deletes: vec![], queries: vec![q(10, false, 200), q(10, true, 200)] });
+    // no frame holds the word: no hit either way
+    out.push(Case { qword: "zorvex".into(), docs: vec![d(vec![1, 2, 3]), d(vec![4, 5, 6, 7])], deletes: vec![], queries: vec![q(10, false, 200), q(10, true, 200)] });
     // a frame without text in front (no sketch entry for it) and a deleted matching frame
     out.push(Case { qword: "zorvex".into(), docs: vec![DocSpec { words: vec![], binary: true, ts: TS }, d(vec![1, PLANT, 3]), d(vec![4, 5, PLANT]), d(vec![7, 8, 9, 10])],
         deletes: vec![2], queries: vec![q(10, false, 200), q(10, true, 200)] });
@@ -581,7 +589,7 @@ fn main() {
     let use_model = args.driver.to_str() != Some("none");
     let mut drv = if use_model { Some(Driver::spawn(&args.driver).expect("spawn driver")) } else { None };
     let mut sum = Summary::new("C09", &args,
-        "real .mv2 files built with put_bytes + commit: 5 fixed corpora (the two recorded witnesses first) + 9 (quick) / 45 (thorough) generated \
+        "real .mv2 files built with put_bytes + commit: 7 fixed corpora (the three recorded witnesses first) + 9 (quick) / 45 (thorough) generated \
          corpora of 1-200 documents (120 in the quick tier) over a vocabulary of 50-400 stem-stable pseudo-words, 5-400 tokens per document (long ones are chunked \
          by the implementation), the query word planted in 5-100% of the documents (sometimes 2-4 times), equal or spread timestamps, optionally a \
          text-less frame and deletions; per corpus 8 one-word queries (top_k = k, k+1..8, 10, all; snippet 80-400; pre-filter on/off; rarely upper-case), each on the \
@@ -630,6 +638,18 @@ fn main() {
         sum.finish(&args);
     }
     let n = if args.thorough { 45 } else { 9 };
+    if std::env::var("C09_DRY").is_ok() {
+        // generator statistics only (no corpus is built)
+        for i in 0..n {
+            let c = gen_case(&mut rng, i, args.thorough);
+            let planted = c.docs.iter().filter(|d| d.words.contains(&PLANT)).count();
+            let multi = c.docs.iter().filter(|d| d.words.iter().filter(|w| **w == PLANT).count() > 1).count();
+            let long = c.docs.iter().filter(|d| d.words.len() > 340).count();
+            println!("corpus {i}: docs={} planted={planted} multi-plant={multi} long={long} deletes={:?} binary={} top_ks={:?}", c.docs.len(), c.deletes,
+                c.docs.iter().filter(|d| d.binary).count(), c.queries.iter().map(|q| q.top_k).collect::<Vec<_>>());
+        }
+        return;
+    }
     {
         let mut cx = Ctx { opts, drv: drv.as_mut(), sum: &mut sum, known, verbose: std::env::var("C09_VERBOSE").is_ok() };
         for c in fixed_corpus() { run_case(&c, &mut cx); }
